@@ -72,9 +72,9 @@ func verifEncDec(bc *ugo.Bytecode, mm *ugo.ModuleMap) (*ugo.Bytecode, []byte, er
 	return got, data, err
 }
 
-func verifSameRun(b1, b2 *ugo.Bytecode, a ugo.Object) bool {
-	v1, e1, o1 := ugo.VerifRunBC(b1, a)
-	v2, e2, o2 := ugo.VerifRunBC(b2, a)
+func verifSameRun(b1, b2 *ugo.Bytecode, a ...ugo.Object) bool {
+	v1, e1, o1 := ugo.VerifRunBC(b1, a...)
+	v2, e2, o2 := ugo.VerifRunBC(b2, a...)
 	if !ugo.VerifSameError(e1, e2) || o1 != o2 {
 		return false
 	}
@@ -87,8 +87,17 @@ func verifSameRun(b1, b2 *ugo.Bytecode, a ugo.Object) bool {
 // VerifC04Prog: encode/decode of a compiled program preserves its behaviour
 // for every argument, and decoding is stable (a second round trip again).
 func VerifC04Prog() {
-	p := verifrt.Param("prog")
-	src := verifC04Progs[p]
+	verifC04Check(verifC04Progs[verifrt.Param("prog")], nil)
+}
+
+// VerifC04Corpus: the same for every program of the shared corpus.
+func VerifC04Corpus() {
+	verifrt.Assert(ugo.VerifCorpusLen() == verifrt.Param("len"), "job-table-covers-the-corpus")
+	src, args := ugo.VerifCorpus(verifrt.Param("prog"))
+	verifC04Check(src, args)
+}
+
+func verifC04Check(src string, args []ugo.Object) {
 	mm := verifModules()
 	bc, err := ugo.Compile([]byte(src), ugo.CompilerOptions{ModuleMap: mm})
 	verifrt.Assert(err == nil, "compiles")
@@ -105,9 +114,11 @@ func VerifC04Prog() {
 	})
 	verifrt.Assert(err1 == nil && err2 == nil, "decode-succeeds")
 	if err1 == nil && err2 == nil && d1 != nil && d2 != nil {
-		a := ugo.Int(verifrt.Int64("a"))
-		verifrt.Assert(verifSameRun(bc, d1, a), "decoded-runs-like-original")
-		verifrt.Assert(verifSameRun(bc, d2, a), "twice-decoded-runs-like-original")
+		if args == nil {
+			args = []ugo.Object{ugo.Int(verifrt.Int64("a"))}
+		}
+		verifrt.Assert(verifSameRun(bc, d1, args...), "decoded-runs-like-original")
+		verifrt.Assert(verifSameRun(bc, d2, args...), "twice-decoded-runs-like-original")
 	}
 	verifrt.Reached("end")
 }
